@@ -10,7 +10,7 @@ from . import core
 from . import format_common as F
 from .core import Check, exc_code, h63_list
 
-IMPORTS = ["Base.Prelude", "Psd.Codec", "Psd.Model", "Psd.Leaf", "Psd.Descriptor", "Psd.Effects", "Psd.Patterns", "Psd.Struct", "Psd.Adjust", "Psd.Vector", "Psd.Linked", "Psd.Corr"]
+IMPORTS = ["Base.Prelude", "Psd.Codec", "Psd.Model", "Psd.Leaf", "Psd.Descriptor", "Psd.Effects", "Psd.Patterns", "Psd.Struct", "Psd.Adjust", "Psd.Vector", "Psd.Linked", "Psd.FilterFx", "Psd.Corr"]
 KINDS = ["header", "cmd", "res", "resources", "tb", "tbs", "mask", "ranges", "rec", "li", "glmi", "lami", "img", "psd"]
 FIXTURES = os.path.join(core.REPO, "tests", "psd_files")
 
@@ -1074,6 +1074,52 @@ def run():
     for i in bad[:5]:
         ck.notes.append("LinkedLayers model/implementation differ on %r: impl %r" % (str(llcases[i][0])[:400], llcases[i][1]))
 
+    # ---- (a11) Stage 3 (4): filter effects - generated FilterEffects (every channel / extra shape, contradictory
+    #      structures, counts that disagree with max_channels) and every FilterEffects object of the fixtures
+    from psd_tools.psd import filter_effects as _FE
+
+    fxcases = []
+
+    def one_fx(a, origin):
+        out, info = F.run_feffects(a, exc_code)
+        if out is None:
+            ck.count("filter-effects-not-constructible")
+            return
+        fxcases.append((a, out))
+        ck.count("filter-effects:%s" % origin)
+        if info["stage"] == "write":
+            return
+        ck.nontriv(("fx", h63_list(0, list(info["bytes"]))))
+        if info["written"] != len(info["bytes"]):
+            ck.fail("written-count-filter-effects", {"fx": jdeep(a)}, info["written"], len(info["bytes"]))
+        if F.wf_feffects(a):
+            if info["stage"] == "read" or not (info["eq"] and info["same_canon"]):
+                ck.fail("filter-effects-roundtrip", {"fx": jdeep(a)},
+                        "raised %r" % info["err"] if info["stage"] else "re-read != original", "X.frombytes(x.tobytes()) == x")
+            elif not info["rewrite_same"]:
+                ck.fail("filter-effects-rewrite", {"fx": jdeep(a)}, "re-written bytes differ", "identical bytes")
+
+    for i in range(3000 if thorough else 300):
+        one_fx(F.g_feffects(rng, wf=rng.random() < 0.7), "generated")
+    nfx = 0
+    for pth in fixture_paths(1 << 40 if thorough else 300000):
+        try:
+            doc = PSD.frombytes(open(pth, "rb").read())
+        except Exception:
+            continue
+        for x in BaseElement_traverse(doc, (_FE.FilterEffects,)):
+            try:
+                a = F.feffects_of_obj(x)
+            except Exception:
+                ck.count("filter-effects:fixture:outside-model")
+                continue
+            if nfx < (500 if thorough else 40):
+                one_fx(a, "fixture")
+                nfx += 1
+    bad = ck.correspond("filter_effects", "feffects_outcome", IMPORTS, fxcases, F.coq_feffects, chunk=60)
+    for i in bad[:5]:
+        ck.notes.append("FilterEffects model/implementation differ on %r: impl %r" % (str(fxcases[i][0])[:400], fxcases[i][1]))
+
     # ---- (b) fixtures: implementation reads and re-writes; the model reads the same bytes
     from psd_tools.psd import PSD
 
@@ -1210,6 +1256,8 @@ def run():
                 "BrightnessContrast", "ColorBalance", "Exposure", "HueSaturation", "SelectiveColor", "PhotoFilter", "ChannelMixer",
                 "Levels", "LevelRecord", "Curves", "CurvesExtraMarker", "CurvesExtraItem", "GradientMap", "ColorStop",
                 "TransparencyStop", "ColorLookup",
+                # filter effects (Psd/FilterFx.v)
+                "FilterEffects", "FilterEffect", "FilterEffectChannel", "FilterEffectExtra",
                 # linked layers (Psd/Linked.v)
                 "LinkedLayers", "LinkedLayer",
                 # vector paths (Psd/Vector.v)
